@@ -2312,7 +2312,11 @@ impl BytecodeVM {
                         &prop_key,
                     )?
                 } else {
-                    obj_ref.borrow().has_own_property(&prop_key)
+                    // HasProperty: own properties (incl. array elements) and the prototype chain
+                    obj_ref
+                        .borrow()
+                        .get_property_descriptor(&prop_key)
+                        .is_some()
                 };
 
                 self.set_reg(dst, JsValue::Boolean(has_prop));
